@@ -7,6 +7,7 @@
 package dec
 
 import (
+	"bytes"
 	"encoding/hex"
 	"fmt"
 	"strings"
@@ -168,11 +169,21 @@ func (s *sweep) corpus(tier string) {
 			ss := sites(p)
 			for idx, st := range ss {
 				for _, kind := range mutationsFor(st.fd) {
-					b, path, ok := mutateAt(p, idx, kind)
+					b, msg, path, ok := mutateAtMsg(p, idx, kind)
 					if !ok {
 						continue
 					}
 					s.exec(e, b, fmt.Sprintf("field:%s proto#%d %s", kind, pi, path))
+					// the same mutation in a message whose commitments were repaired afterwards (reseal.go)
+					// (quick tier: every site of the work-object header incl. its AuxPow, one in three of the body sites)
+					if e.Fix != nil && (tier == "thorough" || strings.Contains(path, ".wo_header") || idx%3 == 0) && timedFix(e, msg) {
+						if fb, err := (proto.MarshalOptions{AllowPartial: true}).Marshal(msg); err == nil && len(fb) <= 1<<20 && !bytes.Equal(fb, b) {
+							o := s.exec(e, fb, fmt.Sprintf("field+reseal:%s proto#%d %s", kind, pi, path))
+							if o.err == nil && !o.panicked {
+								s.rep.Count("reseal:accepted")
+							}
+						}
+					}
 				}
 			}
 		}
@@ -285,7 +296,9 @@ func (s *sweep) random(rng *hlib.Rng, n int) {
 // Run executes the decoder sweep: fixed targeted corpus first, then n generated cases derived only from rng.
 func Run(rng *hlib.Rng, rep *hlib.Report, n int, tier string, budget time.Duration) {
 	s := newSweep(rep, budget)
+	allKinds = tier == "thorough"
 	s.corpus(tier)
+	allKinds = true
 	rep.Distribution["dec:corpus-cases"] = s.nextID - 1_000_000
 	rep.Note(fmt.Sprintf("decoder corpus: %d cases in %.1fs", s.nextID-1_000_000, time.Since(s.start).Seconds()))
 	before := s.nextID
@@ -294,6 +307,13 @@ func Run(rng *hlib.Rng, rep *hlib.Report, n int, tier string, budget time.Durati
 	s.random(rng, n)
 	rep.Distribution["dec:random-cases"] = s.nextID - before
 	Warnings = s.Warnings
+}
+
+func timedFix(e *Entry, m proto.Message) bool {
+	t0 := time.Now()
+	ok := e.Fix(m)
+	Times["(reseal) "+e.Name] += time.Since(t0)
+	return ok
 }
 
 // Warnings of the last Run (valid seeds that are rejected): diagnostics for the dev driver.
